@@ -302,6 +302,11 @@ func c20EmitVlook(emit func(kind, req, resp string), v reg.Virtual, p reg.Physic
 		acc = c20Res(res, false)
 	}
 	emit("accept-vlook", fmt.Sprintf("accept-vlook %d %d %d %d %s", uint8(p.Kind()), uint16(p.PhysicalIndex()), uint32(p.ID()), v.Mask(), acc), "ok")
+	rda := "nil"
+	if rd != nil {
+		rda = fmt.Sprintf("%d %d", uint32(rd.ID()), rd.Mask())
+	}
+	emit("accept-vlookdflt", fmt.Sprintf("accept-vlookdflt %d %d %d %d %d %s", uint8(p.Kind()), uint16(p.PhysicalIndex()), uint32(p.ID()), uint32(v.ID()), v.Mask(), rda), "ok")
 }
 
 func init() {
@@ -907,14 +912,16 @@ func c20Replay(all []reg.Physical, repo, dir string, ts []string, emit func(kind
 			}()
 			emit("accept-vnew", fmt.Sprintf("accept-vnew %s %d %d %s %s", ts[1], arg(2), arg(3), ts[4], res), "ok")
 		}
-	case "vlook", "accept-vlook":
-		// vlook <vkind> <vidx> <vmask> <pid>   |   accept-vlook <pkind> <pidx> <pid> <vmask> …
+	case "vlook", "accept-vlook", "accept-vlookdflt":
+		// vlook <vkind> <vidx> <vmask> <pid>  |  accept-vlook <pkind> <pidx> <pid> <vmask> …  |  accept-vlookdflt <pkind> <pidx> <pid> <vid> <vmask> …
 		var v reg.Virtual
 		var pid reg.ID
 		if ts[0] == "vlook" && arg(4) >= 0 {
 			v, pid = c20VirtOf(arg(1), arg(2), arg(3)), reg.ID(arg(4))
 		} else if ts[0] == "accept-vlook" && arg(3) >= 0 {
 			v, pid = c20VirtOf(int(reg.ID(arg(3)).Kind()), 3, arg(4)), reg.ID(arg(3))
+		} else if ts[0] == "accept-vlookdflt" && arg(3) >= 0 && arg(4) >= 0 {
+			v, pid = c20VirtOf(int(reg.ID(arg(4)).Kind()), int(reg.ID(arg(4)).Index()), arg(5)), reg.ID(arg(3))
 		}
 		if v == nil {
 			return
